@@ -79,8 +79,8 @@ func (f *fmt) clearflags()
   ensures f.wid == old(f.wid) && f.prec == old(f.prec)
 
 func (f *fmt) init(buf *buffer)
-  modifies f, f.buf
-  ensures f.buf == buf
+  modifies f, ptr(f.buf)
+  ensures f.buf == buf && f.wid == old(f.wid) && f.prec == old(f.prec)
   ensures !f.widPresent && !f.precPresent && !f.minus && !f.plus && !f.sharp && !f.space && !f.zero && !f.plusV && !f.sharpV
 
 func (f *fmt) writePadding(n int)
@@ -260,40 +260,218 @@ assume func (f *fmt) fmtFloat(v float64, size int, verb rune, prec int)
 
 func (p *pp) startUnsafe() (r restorer)
   requires PI(p)
-  ensures PI(p) && p.override == old(p.override) && p.buf.gctx == old(p.buf.gctx) && Kept(p)
+  modifies p.buf, field(p.override), alloc
+  ensures PI(p) && p.override == old(p.override) && p.buf.gctx == old(p.buf.gctx)
   ensures fresh(r) && r.p == p && r.prevMode == old(p.buf.mode) && r.prevOverride == old(p.override)
   ensures [C02,C06] p.buf.gctx != 1 ==> p.buf.mode == UnsafeEscaped
   ensures [C05,C06] p.buf.gctx == 1 ==> p.buf.mode == old(p.buf.mode)
 
 func (p *pp) startPreRedactable() (r restorer)
   requires PI(p)
-  ensures p.fmt.buf == p.buf && p.override == old(p.override) && p.buf.gctx == old(p.buf.gctx) && Kept(p)
+  modifies p.buf, field(p.override), alloc
+  ensures p.fmt.buf == p.buf && p.override == old(p.override) && p.buf.gctx == old(p.buf.gctx)
   ensures fresh(r) && r.p == p && r.prevMode == old(p.buf.mode) && r.prevOverride == old(p.override)
   ensures [C08] p.buf.gctx != 2 ==> p.buf.mode == SafeRaw && clean(p.buf.buf, len(p.buf.buf))
   ensures [C06] p.buf.gctx == 2 ==> p.buf.mode == UnsafeEscaped
 
 func (p *pp) startSafeOverride() (r restorer)
   requires PI(p)
+  modifies p.buf, field(p.override), alloc
   ghost p.buf.gctx = p.override after "p.override = overrideSafe"
-  ensures PI(p) && Kept(p)
+  ensures PI(p)
   ensures fresh(r) && r.p == p && r.prevMode == old(p.buf.mode) && r.prevOverride == old(p.override)
   ensures [C05,C06] old(p.buf.gctx) == 0 ==> p.buf.gctx == 1 && p.buf.mode == SafeEscaped
   ensures [C06] old(p.buf.gctx) != 0 ==> p.buf.gctx == old(p.buf.gctx) && p.buf.mode == old(p.buf.mode)
 
 func (p *pp) startUnsafeOverride() (r restorer)
   requires PI(p)
+  modifies p.buf, field(p.override), alloc
   ghost p.buf.gctx = p.override after "p.override = overrideUnsafe"
-  ensures PI(p) && Kept(p)
+  ensures PI(p)
   ensures fresh(r) && r.p == p && r.prevMode == old(p.buf.mode) && r.prevOverride == old(p.override)
   ensures [C06] old(p.buf.gctx) == 0 ==> p.buf.gctx == 2 && p.buf.mode == UnsafeEscaped
   ensures [C06] old(p.buf.gctx) != 0 ==> p.buf.gctx == old(p.buf.gctx) && p.buf.mode == old(p.buf.mode)
 
 func (r restorer) restore()
   requires r.p != nil && inv(r.p.buf) && 0 <= r.prevMode && r.prevMode <= 2
-  modifies r.p
+  modifies r.p.buf, field(r.p.override)
   ghost r.p.buf.gctx = r.prevOverride after "r.p.override = r.prevOverride"
   ensures inv(r.p.buf)
   ensures [C05] r.p.buf.mode == r.prevMode && r.p.override == r.prevOverride && r.p.buf.gctx == r.prevOverride
-  ensures r.p.panicking == old(r.p.panicking) && r.p.erroring == old(r.p.erroring) && r.p.wrapErrs == old(r.p.wrapErrs) && r.p.wrappedErr == old(r.p.wrappedErr) && r.p.arg == old(r.p.arg) && r.p.value == old(r.p.value)
-  ensures r.p.fmt.wid == old(r.p.fmt.wid) && r.p.fmt.prec == old(r.p.fmt.prec) && r.p.fmt.widPresent == old(r.p.fmt.widPresent) && r.p.fmt.precPresent == old(r.p.fmt.precPresent) && r.p.fmt.minus == old(r.p.fmt.minus) && r.p.fmt.plus == old(r.p.fmt.plus) && r.p.fmt.sharp == old(r.p.fmt.sharp) && r.p.fmt.space == old(r.p.fmt.space) && r.p.fmt.zero == old(r.p.fmt.zero) && r.p.fmt.plusV == old(r.p.fmt.plusV) && r.p.fmt.sharpV == old(r.p.fmt.sharpV) && r.p.reordered == old(r.p.reordered) && r.p.goodArgNum == old(r.p.goodArgNum)
+@*/
+
+/*@
+-- ---------------------------------------------------------------- print.go: printer state, entry points
+
+-- formatter flags, width and precision as on entry
+pred KF(p *pp) = p.fmt.wid == old(p.fmt.wid) && p.fmt.prec == old(p.fmt.prec) && p.fmt.widPresent == old(p.fmt.widPresent) && p.fmt.precPresent == old(p.fmt.precPresent) && p.fmt.minus == old(p.fmt.minus) && p.fmt.plus == old(p.fmt.plus) && p.fmt.sharp == old(p.fmt.sharp) && p.fmt.space == old(p.fmt.space) && p.fmt.zero == old(p.fmt.zero) && p.fmt.plusV == old(p.fmt.plusV) && p.fmt.sharpV == old(p.fmt.sharpV)
+-- panic/error bookkeeping as on entry
+pred KE(p *pp) = p.panicking == old(p.panicking) && p.erroring == old(p.erroring)
+-- %w bookkeeping as on entry
+pred KW(p *pp) = p.wrapErrs == old(p.wrapErrs) && p.wrappedErr == old(p.wrappedErr)
+
+-- the user-supplied methods: the rely relation of DESIGN 2.7. They may call back into the
+-- printer through its exported methods only, each of which is proved to re-establish this.
+assume func (v i.SafeFormatter) SafeFormat(p *pp, verb rune)
+  requires PI(p)
+  modifies p
+  may-panic
+  ensures-always PI(p) && Same(p) && Kept(p) && WP(p.fmt)
+
+assume func (v i.SafeMessager) SafeMessage() (s string)
+  may-panic
+
+assume func redactErrorFn(err error, p *pp, verb rune)
+  requires PI(p)
+  modifies p
+  may-panic
+  ensures-always PI(p) && Same(p) && Kept(p) && WP(p.fmt)
+
+assume func (v Formatter) Format(p *pp, verb rune)
+  requires PI(p)
+  modifies p
+  may-panic
+  ensures-always PI(p) && Same(p) && Kept(p) && WP(p.fmt)
+
+assume func (v GoStringer) GoString() (s string)
+  may-panic
+
+assume func (v Stringer) String() (s string)
+  may-panic
+
+assume func (v error) Error() (s string)
+  may-panic
+
+assume func Sprintfn_printer(p *pp)
+  requires PI(p)
+  modifies p
+  may-panic
+  ensures-always PI(p) && Same(p) && Kept(p) && WP(p.fmt)
+
+func newPrinter() (r *pp)
+  nosweep
+  modifies alloc
+  assume-fresh p after "p := ppFree.Get().(*pp)"
+  assume [C12] inv(p.buf) && PoolInv(p) && WP(p.fmt) after "p := ppFree.Get().(*pp)"
+  ensures r != nil && fresh(r)
+  ensures [C12] Pristine(r) && WP(r.fmt)
+  ensures inv(r.buf)
+
+func (p *pp) free()
+  requires p.override == 0 && p.buf.gctx == 0 && WP(p.fmt)
+  assert [C12] PoolInv(p) && WP(p.fmt) before "ppFree.Put(p)"
+
+func (p *pp) Width() (wid int, ok bool)
+  modifies nothing
+  ensures [C14] wid == p.fmt.wid && ok == p.fmt.widPresent
+
+func (p *pp) Precision() (prec int, ok bool)
+  modifies nothing
+  ensures [C14] prec == p.fmt.prec && ok == p.fmt.precPresent
+
+func (p *pp) Flag(c int) (r bool)
+  modifies nothing
+  ensures [C14] c == 45 ==> r == p.fmt.minus
+  ensures [C14] c == 43 ==> r == (p.fmt.plus || p.fmt.plusV)
+  ensures [C14] c == 35 ==> r == (p.fmt.sharp || p.fmt.sharpV)
+  ensures [C14] c == 32 ==> r == p.fmt.space
+  ensures [C14] c == 48 ==> r == p.fmt.zero
+  ensures [C14] c != 45 && c != 43 && c != 35 && c != 32 && c != 48 ==> !r
+
+func (p *pp) Write(bs []byte) (ret int, err error)
+  requires PI(p)
+  class 2 before "p.buf.write(bs)"
+  ensures PI(p) && Same(p) && Kept(p)
+  ensures ret == len(bs)
+
+func (p *pp) WriteString(s string) (ret int, err error)
+  requires PI(p)
+  class 2 before "p.buf.writeString(s)"
+  ensures PI(p) && Same(p) && Kept(p)
+  ensures ret == len(s)
+@*/
+
+/*@
+-- ---------------------------------------------------------------- print.go: formatting of operands
+-- Default contract of the printer's internal functions: called with B(p); mode, override and
+-- context are restored on every exit, normal or by panic; a panic leaves only while a panic
+-- payload is being printed (p.panicking).
+
+func (p *pp) unknownType(v reflect.Value)
+  requires B(p) && WP(p.fmt)
+  ensures B(p) && Same(p) && Kept(p)
+
+func (p *pp) badVerb(verb rune)
+  public verb
+  requires B(p) && WP(p.fmt)
+  may-panic
+  ensures-always B(p) && Same(p) && WP(p.fmt)
+  ensures-always [C11] $panic ==> p.panicking
+  ensures KF(p) && KW(p) && p.panicking == old(p.panicking) && !p.erroring
+
+func (p *pp) fmtBool(v bool, verb rune)
+  public verb
+  requires B(p) && WP(p.fmt)
+  may-panic
+  ensures-always B(p) && Same(p) && WP(p.fmt)
+  ensures-always [C11] $panic ==> p.panicking
+  ensures KF(p) && KW(p) && p.panicking == old(p.panicking)
+
+func (p *pp) fmt0x64(v uint64, leading0x bool)
+  requires PI(p) && WP(p.fmt)
+  ensures PI(p) && Same(p) && Kept(p)
+
+func (p *pp) fmtInteger(v uint64, isSigned bool, verb rune)
+  public verb
+  requires PI(p) && WP(p.fmt)
+  requires (verb != 118 && verb != 100 && verb != 98 && verb != 111 && verb != 79 && verb != 120 && verb != 88 && verb != 99 && verb != 113 && verb != 85) ==> B(p)
+  may-panic
+  ensures-always PI(p) && Same(p) && WP(p.fmt)
+  ensures-always [C11] $panic ==> p.panicking
+  ensures KF(p) && KW(p) && p.panicking == old(p.panicking)
+
+func (p *pp) fmtFloat(v float64, size int, verb rune)
+  public verb
+  requires PI(p) && WP(p.fmt)
+  requires (verb != 118 && verb != 98 && verb != 103 && verb != 71 && verb != 120 && verb != 88 && verb != 102 && verb != 101 && verb != 69 && verb != 70) ==> B(p)
+  may-panic
+  ensures-always PI(p) && Same(p) && WP(p.fmt)
+  ensures-always [C11] $panic ==> p.panicking
+  ensures KF(p) && KW(p) && p.panicking == old(p.panicking)
+
+func (p *pp) fmtComplex(v complex128, size int, verb rune)
+  public verb
+  requires B(p) && WP(p.fmt)
+  may-panic
+  ensures-always B(p) && Same(p) && WP(p.fmt)
+  ensures-always [C11] $panic ==> p.panicking
+  ensures KF(p) && KW(p) && p.panicking == old(p.panicking)
+
+func (p *pp) fmtString(v string, verb rune)
+  public verb
+  requires PI(p) && WP(p.fmt)
+  requires (verb != 118 && verb != 115 && verb != 120 && verb != 88 && verb != 113) ==> B(p)
+  may-panic
+  ensures-always PI(p) && Same(p) && WP(p.fmt)
+  ensures-always [C11] $panic ==> p.panicking
+  ensures KF(p) && KW(p) && p.panicking == old(p.panicking)
+
+func (p *pp) fmtBytes(v []byte, verb rune, typeString string)
+  public verb, typeString
+  requires B(p) && WP(p.fmt)
+  may-panic
+  loop 1 invariant B(p) && Same(p) && KF(p) && KW(p) && KE(p) && WP(p.fmt)
+  loop 2 invariant B(p) && Same(p) && KF(p) && KW(p) && KE(p) && WP(p.fmt)
+  ensures-always B(p) && Same(p) && WP(p.fmt)
+  ensures-always [C11] $panic ==> p.panicking
+  ensures KF(p) && KW(p) && p.panicking == old(p.panicking)
+
+func (p *pp) fmtPointer(value reflect.Value, verb rune)
+  public verb
+  class 2 before "p.fmt.padString(nilAngleString)"
+  requires B(p) && WP(p.fmt)
+  may-panic
+  ensures-always B(p) && Same(p) && WP(p.fmt)
+  ensures-always [C11] $panic ==> p.panicking
+  ensures KF(p) && KW(p) && p.panicking == old(p.panicking)
 @*/
